@@ -6,7 +6,7 @@ import warnings
 from .. import astx, modgen, valgen
 from ..core import REPO
 
-N_CASES = {"quick": 400, "thorough": 20000}
+N_CASES = {"quick": 400, "thorough": 500000}
 TIME_BUDGET = {"quick": 60, "thorough": 270}
 META = {
     "rule": "hostile values (strings over quote/backslash/newline/bracket/operator/unicode alphabets + code-like payloads, big and "
